@@ -271,6 +271,28 @@ func alphabet() []frame {
 	f.EventID, f.C01Sig = alt.ID, "gate: altered event reached the handler"
 	add(f)
 
+	// pubkey that is well-formed hex but not the x coordinate of a curve point (id recomputed, so
+	// that the id gate passes and the signature check itself has to refuse)
+	offCurve := *ev
+	for i := 0; ; i++ {
+		b, _ := hex.DecodeString(ev.Pubkey)
+		b[31] ^= byte(i + 1)
+		if _, err := schnorr.ParsePubKey(b); err != nil {
+			offCurve.Pubkey = hex.EncodeToString(b)
+			break
+		}
+		if i > 200 {
+			panic("alphabet: no off-curve pubkey found")
+		}
+	}
+	{
+		id := refID(offCurve.Pubkey, offCurve.CreatedAt, offCurve.Kind, [][]string{{"t", "x"}}, offCurve.Content)
+		offCurve.ID = hex.EncodeToString(id[:])
+	}
+	f = rej("EVENT pubkey not on the curve", text, eventFrame("EVENT", &offCurve, true))
+	f.EventID, f.C01Sig = offCurve.ID, "gate: event with an impossible pubkey reached the handler"
+	add(f)
+
 	// self-check of the alphabet (reference side only)
 	for _, fr := range fs {
 		if len(fr.Payload) > maxMessageLength {
@@ -292,7 +314,7 @@ func alphabet() []frame {
 			}
 		}
 	}
-	if refAuthentic(&forged) || refAuthentic(&alt) {
+	if refAuthentic(&forged) || refAuthentic(&alt) || refAuthentic(&offCurve) {
 		panic("alphabet: tampered event is authentic by the reference")
 	}
 	return fs
